@@ -157,8 +157,90 @@ func wsStressOnce(r *proto.Rng) string {
 	return ""
 }
 
+// ---- deterministic probes: histories the lock-step schedules cannot reach because the MODEL has no such run ----
+// (after the reader's first error report the model's reader has ended; an Unsubscribe leaves the entry in the map).
+// Each returns "" or "<class> <what>".
+
+// two undeliverable frames nobody receives the report of, then Close: Close must return
+func wsProbeTwoBadFramesThenClose() string {
+	conn := &fastConn{in: make(chan []byte, 16), closed: make(chan struct{}), ids: make(chan string, 8)}
+	conn.in <- []byte(`{"type":"connection_ack"}`)
+	cl := graphql.NewClientUsingWebSocket("ws://h/q", fastDialer{conn})
+	if _, err := cl.Start(context.Background()); err != nil {
+		return ""
+	}
+	conn.in <- []byte(`<<<`)
+	conn.in <- []byte(`{"type":"next","id":"nope","payload":{"data":{"p":1}}}`)
+	time.Sleep(60 * time.Millisecond) // let the reader get as far as it goes on its own
+	done := make(chan struct{})
+	go func() { cl.Close(); close(done) }()
+	select {
+	case <-done:
+		return ""
+	case <-time.After(3 * time.Second):
+		return "api-call-blocked:close Close did not return after two undeliverable frames whose error report nobody received (every connection write completed)"
+	}
+}
+
+// Unsubscribe(A) with a `next` for A still on its way, then traffic for B: B must get everything and be closed once
+func wsProbeLateNextAfterUnsubscribe() string {
+	conn := &fastConn{in: make(chan []byte, 16), closed: make(chan struct{}), ids: make(chan string, 8)}
+	conn.in <- []byte(`{"type":"connection_ack"}`)
+	cl := graphql.NewClientUsingWebSocket("ws://h/q", fastDialer{conn})
+	errChan, err := cl.Start(context.Background())
+	if err != nil {
+		return ""
+	}
+	fwd := func(c interface{}, raw json.RawMessage) error { c.(chan string) <- string(raw); return nil }
+	chA, chB := make(chan string), make(chan string)
+	idA, err1 := cl.Subscribe(wsReq, chA, fwd)
+	<-conn.ids
+	idB, err2 := cl.Subscribe(wsReq, chB, fwd)
+	<-conn.ids
+	if err1 != nil || err2 != nil {
+		return ""
+	}
+	recv := func(ch chan string, what string) (string, bool, string) {
+		select {
+		case v, ok := <-ch:
+			return v, ok, ""
+		case e := <-errChan:
+			return "", false, fmt.Sprintf("next-not-delivered waiting for %s the client reported: %v", what, e)
+		case <-time.After(2 * time.Second):
+			return "", false, "next-not-delivered " + what + " never arrived"
+		}
+	}
+	conn.in <- []byte(fmt.Sprintf(`{"type":"next","id":%q,"payload":{"data":{"p":"b1"}}}`, idB))
+	if _, _, bad := recv(chB, "b1 on B"); bad != "" {
+		return bad
+	}
+	if err := cl.Unsubscribe(idA); err != nil {
+		return ""
+	}
+	conn.in <- []byte(fmt.Sprintf(`{"type":"next","id":%q,"payload":{"data":{"p":"late"}}}`, idA))
+	conn.in <- []byte(fmt.Sprintf(`{"type":"next","id":%q,"payload":{"data":{"p":"b2"}}}`, idB))
+	if v, ok, bad := recv(chB, "b2 on B (after a late next for the unsubscribed A)"); bad != "" {
+		return bad
+	} else if !ok || !strings.Contains(v, "b2") {
+		return "next-not-delivered B received " + v + " instead of b2"
+	}
+	conn.in <- []byte(fmt.Sprintf(`{"type":"complete","id":%q}`, idB))
+	if _, ok, bad := recv(chB, "the close of B after complete"); bad != "" {
+		return strings.Replace(bad, "next-not-delivered", "channel-not-closed-after-end", 1)
+	} else if ok {
+		return "delivery-after-end B received a value after its complete"
+	}
+	cl.Close()
+	return ""
+}
+
 func wsStressChild(c *Ctx, n int) {
 	w := bufio.NewWriter(os.Stdout)
+	for _, probe := range []func() string{wsProbeTwoBadFramesThenClose, wsProbeLateNextAfterUnsubscribe} {
+		if msg := probe(); msg != "" {
+			fmt.Fprintf(w, "PROBE %s\n", msg)
+		}
+	}
 	for i := 0; i < n; i++ {
 		if msg := wsStressOnce(c.Rng("stress", i)); msg != "" {
 			fmt.Fprintf(w, "PROBLEM %d %s\n", i, msg)
@@ -179,6 +261,15 @@ func wsStress(c *Ctx, n int) {
 	c.Res.Distribution["stress-iterations"] += n
 	okDone := false
 	for _, l := range strings.Split(string(out), "\n") {
+		if strings.HasPrefix(l, "PROBE ") {
+			parts := strings.SplitN(strings.TrimPrefix(l, "PROBE "), " ", 2)
+			what := ""
+			if len(parts) > 1 {
+				what = parts[1]
+			}
+			c.Res.Eval()
+			c.Res.Add(proto.Finding{Kind: "violation", Class: parts[0], What: "deterministic probe: " + what, Case: map[string]any{"probe": l}})
+		}
 		if strings.HasPrefix(l, "PROBLEM ") {
 			c.Res.Add(proto.Finding{Kind: "violation", Class: "api-call-blocked:close", What: "free-running stress: " + l, Case: map[string]any{"stress": l, "seed": c.Seed}})
 		}
